@@ -33,6 +33,8 @@ type attack struct {
 	Mut    refcbor.Mutation `json:"mut,omitempty"`
 	Signer string           `json:"signer,omitempty"` // owner earlier mfg device stranger otherkind
 	HashOp string           `json:"hash_op,omitempty"`
+	Entry  int              `json:"entry,omitempty"` // takeover: index of the forged entry
+	Tail   int              `json:"tail,omitempty"`  // takeover: entries appended by the attacker
 }
 
 type caseDesc struct {
@@ -127,6 +129,26 @@ func signerKey(cfg deploy.Config, b *built, who string) (crypto.Signer, bool) {
 		}
 		return keys.Get(other, deploy.KeyOwner1), false
 	}
+}
+
+// pubNode encodes key as an FDO PublicKey of the configuration's type and encoding.
+func pubNode(cfg deploy.Config, key crypto.Signer) *refcbor.Node {
+	typ, _ := cfg.KeyType()
+	enc := int64(cfg.KeyEncoding())
+	var n *refcbor.Node
+	var err error
+	if enc == 2 {
+		n, err = wire.PublicKeyNode(int64(typ), 2, key.Public(), keys.SelfSigned(key, "forged"))
+	} else {
+		if enc == 3 && keys.IsRSA(cfg.Kind()) {
+			enc = 1
+		}
+		n, err = wire.PublicKeyNode(int64(typ), enc, key.Public(), nil)
+	}
+	if err != nil {
+		panic(err)
+	}
+	return n
 }
 
 // ownerSign builds TO0.OwnerSign from its parts.
@@ -281,6 +303,9 @@ func evalCase(d caseDesc) ev.Result {
 	if a.Kind == "signer" {
 		who = a.Signer
 	}
+	if a.Kind == "takeover" {
+		who = "stranger" // the attacker signs the redirect with the key its forged entry names
+	}
 	sk, isRSA := signerKey(d.Cfg, b, who)
 	hashOp := ""
 	if a.Kind == "hash" {
@@ -313,6 +338,29 @@ func evalCase(d caseDesc) ev.Result {
 				return ev.Trivial("not-applicable")
 			}
 			e1.Items = e1.Items[1:]
+		}
+		vbytes = refcbor.EncodeKeepOrder(v1)
+	}
+	if a.Kind == "takeover" {
+		// entry p keeps its genuine hashes but names the stranger's key and is signed by a key other than
+		// the one entry p-1 names; `Tail` further entries are honestly built by the stranger; the rest is dropped
+		v1, _ := refcbor.ParseAll(b.vbytes)
+		ents := v1.Items[4]
+		var items [][]byte
+		for _, it := range ents.Items {
+			items = append(items, b.vbytes[it.Off:it.End])
+		}
+		atk := keys.Get(d.Cfg.Kind(), deploy.KeyStranger)
+		pss := keys.IsRSA(d.Cfg.Kind()) && d.Cfg.PSS()
+		sb, _ := signerKey(d.Cfg, b, a.Signer)
+		forged, err := wire.TakeOver(items, a.Entry%len(items), pubNode(d.Cfg, atk), sb, wire.AlgFor(sb.Public(), pss), atk, wire.AlgFor(atk.Public(), pss), a.Tail)
+		if err != nil {
+			return ev.Failf("setup", "takeover: %v", err)
+		}
+		ents.Items = nil
+		for _, f := range forged {
+			n, _ := refcbor.ParseAll(f)
+			ents.Items = append(ents.Items, n)
 		}
 		vbytes = refcbor.EncodeKeepOrder(v1)
 	}
@@ -389,6 +437,9 @@ func evalCase(d caseDesc) ev.Result {
 	}
 	if a.Kind == "hash" || a.Kind == "graft" {
 		cls += "/" + a.HashOp
+	}
+	if a.Kind == "takeover" {
+		cls += fmt.Sprintf("/%s/%s", a.Signer, posClass(a.Entry%max(d.Chain, 1), d.Chain))
 	}
 	tag := fmt.Sprintf("%s/%s chain=%d policy=%s ttl=%d attack=%s", d.Cfg.Key, d.Cfg.Enc, d.Chain, d.Policy, d.TTL, cls)
 	shouldAccept := refOK && policyOK
@@ -481,11 +532,23 @@ var configs = func() []deploy.Config {
 	return out
 }()
 
+func posClass(p, n int) string {
+	switch {
+	case n == 1:
+		return "only-entry"
+	case p == 0:
+		return "first-entry"
+	case p == n-1:
+		return "last-entry"
+	}
+	return "middle-entry"
+}
+
 func genCase(t *rapid.T) caseDesc {
 	d := caseDesc{Cfg: rapid.SampledFrom(configs).Draw(t, "cfg"), Chain: rapid.IntRange(1, 3).Draw(t, "chain"),
 		Policy: rapid.SampledFrom([]string{"nil", "nil", "fixed", "zero", "error", "echo"}).Draw(t, "policy"),
 		TTL:    rapid.SampledFrom([]uint32{0, 1, 2, 3600, 86400, 1<<31 - 1, 1<<32 - 1}).Draw(t, "ttl")}
-	kind := rapid.SampledFrom([]string{"none", "mutate", "mutate", "mutate", "signer", "signer", "replay", "zero-entries", "other-to1d", "hash", "no-hello", "graft", "graft"}).Draw(t, "kind")
+	kind := rapid.SampledFrom([]string{"none", "mutate", "mutate", "mutate", "signer", "signer", "replay", "zero-entries", "other-to1d", "hash", "no-hello", "graft", "graft", "takeover", "takeover"}).Draw(t, "kind")
 	d.Attack.Kind = kind
 	switch kind {
 	case "mutate":
@@ -496,6 +559,10 @@ func genCase(t *rapid.T) caseDesc {
 		d.Attack.HashOp = rapid.SampledFrom([]string{"other-alg", "wrong-value", "hmac-alg"}).Draw(t, "hop")
 	case "graft":
 		d.Attack.HashOp = rapid.SampledFrom([]string{"foreign-last", "foreign-all", "dup-last", "swap", "drop-first"}).Draw(t, "gop")
+	case "takeover":
+		d.Attack.Entry = rapid.IntRange(0, d.Chain-1).Draw(t, "entry")
+		d.Attack.Tail = rapid.IntRange(0, 2).Draw(t, "tail")
+		d.Attack.Signer = rapid.SampledFrom([]string{"stranger", "stranger", "device", "earlier", "mfg", "owner"}).Draw(t, "signer")
 	}
 	return d
 }
@@ -528,7 +595,7 @@ func TestC06(t *testing.T) {
 		}
 		return res
 	})
-	r.SetRule("attacks", "configuration × chain × TTL policy × requested TTL × one forgery of TO0.OwnerSign built by a manual owner from the CDDL: one structure-aware mutation anywhere (to0d incl. the embedded voucher, wait seconds, nonce; to1d payload, protected header, signature, hash), signer ∈ {earlier owner, manufacturer, device key, stranger, key of another kind}, OwnerSign replayed in a fresh session, zero-entry voucher, to1d taken from another device's registration, hash with other algorithm / wrong value / HMAC id, no preceding Hello, rearranged entry lists (last or all entries grafted from another device's voucher with the same owners, duplicated last entry, swapped or dropped entries) correctly hashed and signed by the genuine owner. Oracle: SetRVBlob appears in the journal and type 23 is returned only if an independent reference accepts the bytes sent (≥1 entry, chain verifies, hash(to0d)=to1d hash, nonce issued in this session, to1d signed by the current owner key) and the policy admits; otherwise type 255 and nothing stored; TTL semantics as in controls. Non-trivial: every forged request and every non-default policy; distinct by descriptor.")
+	r.SetRule("attacks", "configuration × chain × TTL policy × requested TTL × one forgery of TO0.OwnerSign built by a manual owner from the CDDL: one structure-aware mutation anywhere (to0d incl. the embedded voucher, wait seconds, nonce; to1d payload, protected header, signature, hash), signer ∈ {earlier owner, manufacturer, device key, stranger, key of another kind}, OwnerSign replayed in a fresh session, zero-entry voucher, to1d taken from another device's registration, hash with other algorithm / wrong value / HMAC id, no preceding Hello, take-over of entry p (genuine hashes, names the stranger, signed by stranger/device/earlier owner/manufacturer/current owner, 0..2 further entries honestly built by the stranger, redirect signed by the stranger), rearranged entry lists (last or all entries grafted from another device's voucher with the same owners, duplicated last entry, swapped or dropped entries) correctly hashed and signed by the genuine owner. Oracle: SetRVBlob appears in the journal and type 23 is returned only if an independent reference accepts the bytes sent (≥1 entry, chain verifies, hash(to0d)=to1d hash, nonce issued in this session, to1d signed by the current owner key) and the policy admits; otherwise type 255 and nothing stored; TTL semantics as in controls. Non-trivial: every forged request and every non-default policy; distinct by descriptor.")
 	ev.Rapid(r, "attacks", ev.N{Quick: 8000, Thorough: 200000}, genCase, evalCase)
 	ev.CheckWitness(r, "attacks", evalCase)
 }
